@@ -27,7 +27,7 @@ MStep(m, e) ==
           [] e.e = "End" -> [m EXCEPT !.ended = TRUE]
           [] e.e = "Drop" -> [m EXCEPT !.dropped = TRUE, !.pullsAtDrop = m.pulls,
                                        !.activeAtDrop = Cardinality(m.active)]
-          [] e.e = "AllExited" -> [m EXCEPT !.allExited = TRUE]
+          [] e.e \in {"AllExited", "ProducerExited"} -> [m EXCEPT !.allExited = TRUE]
           [] e.e = "Stuck" -> [m EXCEPT !.stuck = TRUE]
           [] OTHER -> m
     IN [m1 EXCEPT !.maxLook = IF m1.dropped THEN @ ELSE Max2(@, m1.pulls - Len(m1.out)),
@@ -41,7 +41,19 @@ NoDup(s) == Cardinality({s[k] : k \in 1..Len(s)}) = Len(s)
 \* received but not yet logged
 Bound(r) == (IF r.W = 0 THEN 1 ELSE r.cap + r.W) + (IF r.mode = "free" THEN 1 ELSE 0)
 
-Clauses(r, m) == <<
+\* Buffered (C09): same observables, its own constants
+BFree(r) == r.ctl = "free"
+BPulls(r, m) == IF BFree(r) THEN Max2(m.pulls, r.total_pulls) ELSE m.pulls
+BClauses(r, m) == <<
+    <<"buffered_in_order", \A k \in 1..Len(m.out) : m.out[k] = k - 1>>,
+    <<"buffered_complete", m.ended => Len(m.out) = r.N>>,
+    <<"buffered_lookahead", m.maxLook <= r.cap + 1 + (IF BFree(r) THEN 1 ELSE 0)>>,
+    <<"buffered_pulls_after_drop", m.dropped => BPulls(r, m) <= m.pullsAtDrop + 1>>,
+    <<"buffered_producer_exits", (r.drained /\ ~m.stuck) => m.allExited>>,
+    <<"progress", ~m.stuck>>
+>>
+
+PClauses(r, m) == <<
     <<"upstream_sequential", m.pullOk>>,
     <<"in_order", \A k \in 1..Len(m.out) : m.out[k] = k - 1>>,
     <<"processed_at_most_once", NoDup(m.calls)>>,
@@ -49,10 +61,21 @@ Clauses(r, m) == <<
     <<"nothing_after_end", ~m.lateRecv>>,
     <<"iteration_ends", (r.drained /\ ~m.dropped /\ ~m.stuck) => m.ended>>,
     <<"bounded_lookahead", m.maxLook <= Bound(r)>>,
-    <<"bounded_pulls_after_drop", m.dropped => m.pulls <= m.pullsAtDrop + r.W>>,
+    \* free-running: the drop is logged just before it is executed, so everything the
+    \* workers may still legally pull ahead is allowed for; controlled: exactly W
+    <<"bounded_pulls_after_drop",
+        m.dropped => m.pulls <= m.pullsAtDrop + (IF r.mode = "free" THEN 2 * r.W + r.cap ELSE r.W)>>,
     <<"threads_exit", (r.drained /\ ~m.stuck) => m.allExited>>,
     <<"progress", ~m.stuck>>
 >>
+
+\* panic clause of C09: a child process whose processing function panics at item `fail`
+\* must terminate (the parent records its exit status or "hang" after 10 s)
+CClauses(r) == << <<"terminates_on_panic", r.exit # "hang">> >>
+
+Clauses(r, m) == IF r.mode = "buffered" THEN BClauses(r, m)
+                 ELSE IF r.mode = "child" THEN CClauses(r)
+                 ELSE PClauses(r, m)
 
 Judge(r) ==
     IF r.st # "ok"
@@ -69,7 +92,8 @@ Judge(r) ==
              skip |-> FALSE,
              \* non-trivial: two workers were between processing and turn hand-over at
              \* the same time, or a drop happened while a worker was active
-             nt |-> m.maxActive >= 2 \/ (m.dropped /\ m.activeAtDrop >= 1)]
+             nt |-> IF r.mode = "child" THEN TRUE ELSE IF r.mode = "buffered" THEN m.dropped \/ m.maxLook >= r.cap + 1
+                    ELSE m.maxActive >= 2 \/ (m.dropped /\ m.activeAtDrop >= 1)]
 
 INSTANCE Stepper
 =============================================================================
